@@ -424,12 +424,12 @@ pub fn run(ctx: &Ctx) -> PropResult {
     let rand_shards = if ctx.tiny { 4usize } else { 64usize };
     let rand_cases = if ctx.tiny { 25 } else { ctx.scaled(if ctx.thorough { 100_000 } else { 8_000 }) };
     let longs = if ctx.tiny { 0 } else { long_inputs().len() };
-    let mut all: Vec<&'static IfaceDesc> = vec![mini, ctx.iface("pzoo")];
+    let mut all: Vec<&'static IfaceDesc> = ctx.built(&["mini", "pzoo"]);
     all.extend(ctx.random_ifaces());
     if ctx.tiny {
         all.truncate(6);
     }
-    let long_ifaces: Vec<&'static IfaceDesc> = vec![mini, ctx.iface("pzoo"), ctx.iface("qdev2")];
+    let long_ifaces: Vec<&'static IfaceDesc> = ctx.built(&["mini", "pzoo", "qdev2"]);
     let total = n_ex + rand_shards + longs;
     let accs = par::run_shards(
         total,
